@@ -13,6 +13,12 @@ ALPH = {
     "rich": alphabet(prices=(99, 99.5, 100, 100.25, 101), vols=(1, 2, 3), ttls=(None, 1, 2), mvols=(1, 2, 3)),
     "half": alphabet(prices=(99.5, 99.75, 100, 100.5), vols=(1, 2), ttls=(None, 1)),
     # prices at and below one tick: 0.4 is accepted at 0.0 for a buy and at 1.0 for a sell
+    # extreme values: a price of exactly zero, very large prices one tick apart, very large volumes
+    "extreme": alphabet(prices=(0.0, 1.0, 1e9, 1e9 + 1), vols=(1, 10 ** 6), ttls=(None,), mvols=(1, 10 ** 6), mttls=(None,), dead=(), cancels=2),
+    # tick 0.1: mid-tick prices that both sides round onto the same level (0.25/0.35 -> 0.3, 1.15/1.25 -> 1.2), and the level itself
+    "dec01": alphabet(prices=(0.25, 0.3, 0.35, 1.15, 1.25), vols=(1, 2), ttls=(None,), mttls=(None,), dead=(), cancels=2),
+    # tick 1e-5 at the price level of the shipped samples: adjacent levels and a mid-tick price
+    "fine": alphabet(prices=(299.99999, 300.0, 300.000005, 300.00001), vols=(1, 2), ttls=(None,), mttls=(None,), dead=(), cancels=2),
     "low": alphabet(prices=(0.4, 1, 2), vols=(1, 2), ttls=(None,), mttls=(None,), dead=(), cancels=2),
 }
 SEEDS_Q = ["deep", "ladder_buy", "ladder_sell", "partial", "crossed_off", "crossed_tie", "mo_one", "mo_both",
@@ -37,6 +43,9 @@ def plan(tier, d0=None, dseed=None):
         for mode in ("cont", "free"):
             p.append(("empty", mode, d0, "low"))
             p.append(("empty", mode, d0 - 1, "rich"))
+            p.append(("empty", mode, d0 - 1, "extreme"))
+            p.append(("tick01", mode, d0 - 1, "dec01"))
+            p.append(("tick1e5", mode, d0 - 1, "fine"))
     else:
         d0 = d0 or 5
         dseed = dseed or 3
@@ -45,6 +54,9 @@ def plan(tier, d0=None, dseed=None):
             p.append(("empty", mode, d0 + 1, "reduced"))
             p.append(("empty", mode, d0 - 2, "rich"))
             p.append(("empty", mode, d0, "low"))
+            p.append(("empty", mode, d0 - 1, "extreme"))
+            p.append(("tick01", mode, d0 - 1, "dec01"))
+            p.append(("tick1e5", mode, d0 - 1, "fine"))
         for s in SEEDS_Q:
             for mode in ("cont", "free"):
                 p.append((s, mode, dseed, "half" if s == "halftick" else "quick"))
